@@ -303,6 +303,7 @@ func (r *run) checkC16(d *delivery, cl opClass, accepted bool, i int) {
 		// with the per-pot amount
 		var listed []int
 		foldedListed := -1
+		foldedOdd := -1
 		for s := 0; s < n; s++ {
 			amt, ok := p.Contributors[s]
 			if !ok {
@@ -310,6 +311,11 @@ func (r *run) checkC16(d *delivery, cl opClass, accepted bool, i int) {
 			}
 			if gs.Players[s].Fold {
 				foldedListed = s
+				// the recorded finding: listed with the whole contribution,
+				// in pots up to the seat's own level
+				if amt != c[s] || c[s] < prev {
+					foldedOdd = s
+				}
 				continue
 			}
 			listed = append(listed, s)
@@ -327,7 +333,11 @@ func (r *run) checkC16(d *delivery, cl opClass, accepted bool, i int) {
 		}
 		if foldedListed >= 0 {
 			r.probe("folded-contributor-in-pot")
-			r.viol("C16", "folded-seat-listed-as-pot-contributor", fmt.Sprintf("pot %d lists folded seat %d (with %d)", k, foldedListed, p.Contributors[foldedListed]), i)
+			if foldedOdd >= 0 {
+				r.viol("C16", "folded-seat-listed-in-unexpected-form", fmt.Sprintf("pot %d (level %d..%d) lists folded seat %d with %d, its contribution is %d", k, prev, p.Level, foldedOdd, p.Contributors[foldedOdd], c[foldedOdd]), i)
+			} else {
+				r.viol("C16", "folded-seat-listed-as-pot-contributor (with its whole contribution, in pots up to its own level)", fmt.Sprintf("pot %d lists folded seat %d (with %d)", k, foldedListed, p.Contributors[foldedListed]), i)
+			}
 		}
 		if k > 0 && !(len(el) < len(prevEl)) {
 			r.viol("C16", "eligible-sets-not-shrinking", fmt.Sprintf("pot %d eligible %v, previous %v", k, el, prevEl), i)
